@@ -656,6 +656,38 @@ func (h *c17) doTx(signer int, inj *c17inject, msgs ...*cmsg) string {
 	return res
 }
 
+// doTx2: ONE transaction signed by two accounts — a helper without custody (first signer, pays the fee) sends 1 ukex,
+// then the account `g` sends with a plain bank message. The decorator must judge the second message under g's settings.
+func (h *c17) doTx2(helper, g int, m *cmsg) string {
+	w := h.w
+	hm := &cmsg{kind: "banksend", to: 3, coins: uk(1)}
+	smsgs := []sdk.Msg{h.build(helper, hm), h.build(g, m)}
+	bz, err := w.SignTxN(smsgs, []int{helper, g}, ukex(c17Fee))
+	if err != nil {
+		panic(err)
+	}
+	h.txCount++
+	pre := h.snapshot()
+	t := w.now.Add(6 * time.Second).Unix()
+	br := w.Block([][]byte{bz}, BlockOpts{})
+	if br.Panicked != nil || len(br.Results) != 1 {
+		h.r.Fail("C17/block/panic", fmt.Sprintf("block panicked in %s: %v", br.Phase, br.Panicked), h.replay())
+		return "panic"
+	}
+	res := c17Class(br.Results[0])
+	line := fmt.Sprintf("custody tx s=%d fee=%d t=%d %s ; %s u=%d", helper, c17Fee, t, hm.tok(), m.tok(), g)
+	h.op(line, res)
+	post := h.snapshot()
+	for i := 0; i < c17NAcc; i++ {
+		h.op(fmt.Sprintf("custody obs %d", i), post[i].str)
+	}
+	h.r.Count("two-signers:" + m.kind + ":" + res)
+	h.r.Case(line+"=>"+res, true)
+	// the property's clauses for g's message are those of a transaction of g alone
+	h.oracle(pre, post, g, []*cmsg{m}, res, line)
+	return res
+}
+
 func (h *c17) replay() []string {
 	out := append([]string{}, h.trace...)
 	if len(out) > 400 {
@@ -1431,6 +1463,14 @@ func (h *c17) randomEpisode(ei int, style int, mode uint64, pw, wl, lim bool, nC
 		if rng.Intn(3) == 0 {
 			if s := h.w.app.CustodyKeeper.GetCustodyInfoByAddress(h.w.ReadCtx(), h.w.addrs[who]); s != nil && s.UseLimits {
 				inj = &c17inject{acct: who, d: pick(0, 0, 1), amt: uint64(pick(0, 1, 5000, 7000000)), dt: int64(pick(0, 1, 3600, -5))}
+			}
+		}
+		if inj == nil && who == o && rng.Intn(3) == 0 {
+			// the same send hidden behind another signer: a helper without custody signs first and pays the fee
+			helper := 9
+			if s := h.w.app.CustodyKeeper.GetCustodyInfoByAddress(h.w.ReadCtx(), h.w.addrs[helper]); s == nil && m.to != helper {
+				h.doTx2(helper, who, m)
+				return
 			}
 		}
 		h.doTx(who, inj, m)
